@@ -25,6 +25,7 @@ import (
 	"syscall"
 	"testing"
 	"time"
+	"unicode/utf8"
 	"unsafe"
 
 	"golang.org/x/crypto/blake2b"
@@ -360,6 +361,27 @@ func (f *c13Fail) put(res map[string]any) {
 	}
 }
 
+// c13Refused: the constructor / the wrapper refused the key of a case.  The key rule is over BYTES: a key is
+// refused iff it has fewer than 4 bytes, whatever the bytes spell (multi-byte UTF-8 sequences, bytes that are
+// not UTF-8 at all, NULs, white space).  A refused key of 4 or more bytes is a verdict of its own, with the
+// key bytes in the record (the case cannot go on: no wrapped socket exists for that key).
+func c13Refused(res map[string]any, f *c13Fail, psk []byte, err error, who string) {
+	res["refused"] = true
+	res["key"] = vHex(psk)
+	res["errIsTooShort"] = errors.Is(err, ErrPSKTooShort)
+	shown := psk
+	more := ""
+	if len(shown) > 24 {
+		shown, more = shown[:24], " ..."
+	}
+	if len(psk) >= 4 {
+		f.add("%s refused a key of %d bytes [% x%s] (%d code points if read as UTF-8, valid UTF-8: %v): %v; every key of 4 or more bytes must be accepted",
+			who, len(psk), shown, more, utf8.RuneCount(psk), utf8.Valid(psk), err)
+	} else {
+		f.add("%s refused the %d-byte key [% x] of a case that needs a wrapped socket: %v", who, len(psk), shown, err)
+	}
+}
+
 
 // ---- watchdog: a call into the code under test that never returns (a mutex left locked on some
 // return path, a lost wake-up) must become a verdict with the case as the replay, not a hang of the
@@ -474,25 +496,53 @@ func TestVerifC13(t *testing.T) {
 
 func c13Key(c c13Case, res map[string]any, f *c13Fail) {
 	psk := c.Psk.bytes()
+	psk0 := append([]byte{}, psk...)
 	w, err := WrapPacketConnSalamander(&c13Conn{}, psk)
 	refused := err != nil
 	res["refused"] = refused
+	res["key"] = vHex(psk0)
 	res["errIsTooShort"] = errors.Is(err, ErrPSKTooShort)
+	// the rule is over bytes: refused iff len(key) < 4, whatever the bytes spell
 	if len(psk) < 4 {
 		if !refused || w != nil {
-			f.add("key of %d bytes accepted", len(psk))
+			f.add("key of %d bytes [% x] accepted", len(psk), psk0)
 		} else if !errors.Is(err, ErrPSKTooShort) {
 			f.add("key of %d bytes refused with an unexpected error %v", len(psk), err)
 		}
 	} else if refused {
-		f.add("key of %d bytes refused: %v", len(psk), err)
+		c13Refused(res, f, psk0, err, "WrapPacketConnSalamander")
+	} else if w == nil {
+		f.add("key of %d bytes: the wrapper returned neither a socket nor an error", len(psk))
+	}
+	if !bytes.Equal(psk, psk0) {
+		f.add("the constructor modified the caller's key")
 	}
 	o, err2 := newSalamanderObfuscator(psk)
 	if (err2 != nil) != refused {
-		f.add("constructor and wrapper disagree on key of %d bytes", len(psk))
+		f.add("constructor and wrapper disagree on key of %d bytes [% x]", len(psk), psk0)
 	}
-	if o != nil && !bytes.Equal(o.PSK, psk) {
+	if o != nil && !bytes.Equal(o.PSK, psk0) {
 		f.add("constructor stored a different key")
+	}
+	if o != nil {
+		// an accepted key is used as it is, byte for byte: wire image of a fixed probe packet (the python side
+		// repeats this with hashlib) and its way back
+		probe := []byte{0x00, 0x01, 0x7f, 0x80, 0xff, 0x41, 0xc3, 0xa4, 0x0a}
+		o.RandSrc = rand.New(rand.NewSource(int64(len(psk)) + 1))
+		outb := make([]byte, 64)
+		n := o.Obfuscate(probe, outb)
+		if n != len(probe)+8 {
+			f.add("Obfuscate reported %d for a %d-byte payload (key %d bytes)", n, len(probe), len(psk))
+		} else {
+			res["probe"] = vHex(outb[:n])
+			if !bytes.Equal(outb[8:n], c13Xor(psk0, outb[:8], probe)) {
+				f.add("wire bytes are not payload XOR BLAKE2b-256(key||salt) (payload %d bytes, key %d bytes [% x])", len(probe), len(psk), psk0[:min(len(psk0), 24)])
+			}
+			back := make([]byte, 64)
+			if m := o.Deobfuscate(outb[:n], back); m != len(probe) || !bytes.Equal(back[:m], probe) {
+				f.add("payload changed in transit (%d bytes, key %d bytes): Deobfuscate(Obfuscate(p)) != p", len(probe), len(psk))
+			}
+		}
 	}
 }
 
@@ -517,7 +567,7 @@ func c13Obf(c c13Case, res map[string]any, f *c13Fail, rs int64) {
 	psk := c.Psk.bytes()
 	o, err := newSalamanderObfuscator(psk)
 	if err != nil {
-		f.add("constructor refused a %d-byte key", len(psk))
+		c13Refused(res, f, psk, err, "newSalamanderObfuscator")
 		return
 	}
 	o.RandSrc = rand.New(rand.NewSource(rs))
@@ -552,7 +602,7 @@ func c13Deobf(c c13Case, res map[string]any, f *c13Fail) {
 	psk := c.Psk.bytes()
 	o, err := newSalamanderObfuscator(psk)
 	if err != nil {
-		f.add("constructor refused a %d-byte key", len(psk))
+		c13Refused(res, f, psk, err, "newSalamanderObfuscator")
 		return
 	}
 	in := c.D.bytes()
@@ -601,12 +651,12 @@ func c13Stream(c c13Case, res map[string]any, f *c13Fail, rs int64) {
 	}
 	a, err := c13Wrap(ca, psk, rs)
 	if err != nil {
-		f.add("wrapper refused a %d-byte key", len(psk))
+		c13Refused(res, f, psk, err, "WrapPacketConnSalamander")
 		return
 	}
 	b, err := c13Wrap(cb, psk, rs+7)
 	if err != nil {
-		f.add("wrapper refused a %d-byte key", len(psk))
+		c13Refused(res, f, psk, err, "WrapPacketConnSalamander")
 		return
 	}
 	if c.UDP {
@@ -648,7 +698,7 @@ func c13Stream(c c13Case, res map[string]any, f *c13Fail, rs int64) {
 					ca = c13ConnUDP{ua}
 				}
 				if a, err = c13Wrap(ca, psk, rs+int64(1000*nW)); err != nil {
-					f.add("wrapper refused a %d-byte key", len(psk))
+					c13Refused(res, f, psk, err, "WrapPacketConnSalamander")
 					return
 				}
 				continue
@@ -903,7 +953,7 @@ func c13Conc(c c13Case, res map[string]any, f *c13Fail, rs int64) {
 	for s := 0; s < 2; s++ {
 		x, err := c13Wrap(u[s], psk, rs+int64(s))
 		if err != nil {
-			f.add("wrapper refused a %d-byte key", len(psk))
+			c13Refused(res, f, psk, err, "WrapPacketConnSalamander")
 			return
 		}
 		wr[s] = x
@@ -1101,7 +1151,7 @@ func c13Hammer(c c13Case, res map[string]any, f *c13Fail, rs int64) {
 	psk := c.Psk.bytes()
 	o, err := newSalamanderObfuscator(psk)
 	if err != nil {
-		f.add("constructor refused a %d-byte key", len(psk))
+		c13Refused(res, f, psk, err, "newSalamanderObfuscator")
 		return
 	}
 	o.RandSrc = rand.New(rand.NewSource(rs))
